@@ -575,7 +575,7 @@ func Render(ch Chooser, toks []*Tok, opt Options) string {
 			}
 		}
 	}
-	var prev *Tok     // previous rendered (non-empty) token
+	var prev *Tok      // previous rendered (non-empty) token
 	pendingNL := false // an ASI terminator was chosen: next gap must contain a line break (unless } or EOF follows)
 	for i, t := range toks {
 		if t.Kind == Term {
